@@ -10,15 +10,39 @@ fn shake_1(expression: Expression) -> (r: Expression)
 
 pub open spec fn cols_of(v: Seq<(String, u32)>) -> Seq<String> { v.map_values(|p: (String, u32)| p.0) }
 
-// HashMap::into_iter().collect(): every key exactly once
+// every pair of `v` is an entry (key, its count) of the map
+pub open spec fn pairs_from(v: Seq<(String, u32)>, m: Map<String, u32>) -> bool {
+    forall|i: int| 0 <= i < v.len() ==> m.contains_key((#[trigger] v[i]).0) && m[v[i].0] == v[i].1
+}
+pub open spec fn sorted_by_count(v: Seq<(String, u32)>) -> bool {
+    forall|i: int, j: int| 0 <= i < j < v.len() ==> (#[trigger] v[i]).1 <= (#[trigger] v[j]).1
+}
+// the columns are in non-decreasing order of their counts (C12: with pairwise distinct counts the order is a function of the rule)
+pub open spec fn cols_by_count(cols: Seq<String>, m: Map<String, u32>) -> bool {
+    forall|i: int, j: int| 0 <= i < j < cols.len() ==> m.contains_key(#[trigger] cols[i]) && m.contains_key(#[trigger] cols[j]) && m[cols[i]] <= m[cols[j]]
+}
+
+// HashMap::into_iter().collect(): every entry exactly once, in NO specified order
 #[verifier::external_body]
 pub fn hm_into_vec(fields: HashMap<String, u32>) -> (r: Vec<(String, u32)>)
     ensures
         r@.len() == fields@.len(),
         cols_of(r@).no_duplicates(),
         forall|k: String| fields@.contains_key(k) <==> cols_of(r@).contains(k),
+        pairs_from(r@, fields@),
 {
     fields.into_iter().collect()
+}
+
+// HashMap::into_keys().collect(): every key exactly once, in NO specified order
+#[verifier::external_body]
+pub fn hm_keys_vec(fields: HashMap<String, u32>) -> (r: Vec<String>)
+    ensures
+        r@.len() == fields@.len(),
+        r@.no_duplicates(),
+        forall|k: String| fields@.contains_key(k) <==> r@.contains(k),
+{
+    fields.into_keys().collect()
 }
 
 // HashMap::values(): which counts are seen is irrelevant to correctness (it only decides whether to build a matrix)
@@ -28,13 +52,15 @@ pub fn hm_values<'a>(fields: &'a HashMap<String, u32>) -> (r: Vec<&'a u32>)
     fields.values().collect()
 }
 
-// sort_by permutes
+// sort_by(|x, y| x.1.cmp(&y.1)): permutes its slice into non-decreasing order of the second components (std: slice::sort_by)
 #[verifier::external_body]
 pub fn sort_by_count(columns: &mut Vec<(String, u32)>)
     ensures
         final(columns)@.len() == old(columns)@.len(),
         cols_of(old(columns)@).no_duplicates() ==> cols_of(final(columns)@).no_duplicates(),
         forall|k: String| cols_of(old(columns)@).contains(k) <==> cols_of(final(columns)@).contains(k),
+        forall|i: int| 0 <= i < final(columns)@.len() ==> old(columns)@.contains(#[trigger] final(columns)@[i]),
+        sorted_by_count(final(columns)@),
 {
     columns.sort_by(|x, y| x.1.cmp(&y.1))
 }
